@@ -154,6 +154,17 @@ TAbort ==
      ELSE PostMatches /\ KeepSpecMon
   /\ Oracles(0, 0) /\ KeepO /\ KeepExpecting
 
+\* the real Change.Abort panicked ("change ... unexpectedly became unready": the known finding recorded for C03,
+\* not an E03 matter). Conformance: the specification predicts that panic for this abort. The real state is
+\* left half-way through the abort and the case ends here (the next line is an Init).
+TAbortPanic ==
+  /\ IsEv("AbortPanic")
+  /\ Precise => (started /\ ~rdy[E.c] /\ RAbortAll(RMem, E.c).pan)
+  /\ panicked' = TRUE
+  /\ UNCHANGED <<graphVars, stateVars, c02bad, redoBad, everDone, everUndone, failedDo, failedUndo, aborted, budget>>
+  /\ UNCHANGED <<rFixed, rState, rMon>>
+  /\ UNCHANGED <<r_chgst, t_owed, t_expecting, o_a, o_busy, o_spur, o_c, o_d, o_e, o_stuck>>
+
 TTick ==
   /\ IsEv("Tick")
   /\ PostMatches /\ KeepSpecMon
@@ -212,7 +223,7 @@ TStuck ==
   /\ o_stuck' = TRUE
   /\ UNCHANGED <<rvars, r_chgst, t_owed, t_expecting, o_a, o_busy, o_spur, o_c, o_d, o_e>>
 
-TNext == TInitEv \/ TEnsure \/ TFinish \/ TAbort \/ TTick \/ THRestart \/ TBoot \/ TStartUp \/ TStuck
+TNext == TInitEv \/ TEnsure \/ TFinish \/ TAbort \/ TAbortPanic \/ TTick \/ THRestart \/ TBoot \/ TStartUp \/ TStuck
 
 TInit ==
   /\ l = 1
@@ -242,5 +253,5 @@ A_E03d == ~o_d
 A_E03e == ~o_e
 A_E03 == A_E03a /\ A_E03b /\ A_E03c /\ A_E03d /\ A_E03e
 \* spec-side monitors stay clean too (precise mode: the spec's own bookkeeping over the real run)
-SpecMonR == E03 /\ ~panicked
+SpecMonR == panicked \/ E03
 =============================================================================
